@@ -323,7 +323,8 @@ def _verify(result, objs, names, expected, case, classes, info, ordered=True, wh
         for s in set(keys):
             pos = [p for p, kname in enumerate(keys) if kname == s]
             res = _lookup(row, s)
-            softpos = [p for p in range(n) if p not in pos and (s in soft[p] or s in names[p])]
+            legacy = info.get("legacy_names") or ()
+            softpos = [p for p in range(n) if p not in pos and (s in soft[p] or (s in names[p] and s not in legacy))]
             if softpos:
                 # the name is also a natural name of another position (its column name while the key was truncated /
                 # prefixed, or a positional text column bound under that name): raising is the safe answer; an answer
@@ -405,6 +406,7 @@ def _run_compiled(world, case, classes, info, build):
 def _shape_join(world, case, classes, info):
     def build():
         stmt, exprs, base = _join_select(world, case, info)
+        info["legacy_names"] = {x.tq for x in exprs if x.tq}
         expected = [tuple(x.fn(r) for x in exprs) for r in range(1, NBASE + 1)]
         return stmt, [x.obj for x in exprs], [x.names for x in exprs], expected, True
 
@@ -450,6 +452,7 @@ def _shape_sub(world, case, classes, info):
             recs.append(dict(kind=kind, label=(LABELS[p["name"] % len(LABELS)] if kind in ("label", "addlabel") else None), cname=c.name,
                              tq=(f"{name}_{c.name}" if (name and kind == "col") else None), colid=id(c)))
         _known_exclusions_simple(recs, case, info)
+        info["legacy_names"] = {r["tq"] for r in recs if r["tq"]}
         outer = select(*objs).order_by(sc[-1]).set_label_style(_style(case["outer"]["style"]))
         expected = [tuple(f(r) for f in fns) for r in range(1, NBASE + 1)]
         return outer, objs, names, expected, True
@@ -462,6 +465,7 @@ def _shape_union(world, case, classes, info):
 
     def build():
         s1, e1, _ = _join_select(world, case, info)
+        info["legacy_names"] = {x.tq for x in e1 if x.tq}
         second = {"froms": case["union"]["froms"], "cols": case["union"]["cols"][: len(e1)], "style": case["union"]["style"]}
         while len(second["cols"]) < len(e1):
             second["cols"] = second["cols"] + case["union"]["cols"]
